@@ -76,7 +76,9 @@ func checkBackward(c *bolt.Cursor, fwd [][]byte, where string) *Violation {
 }
 
 // DumpBucket dumps one bucket (see DumpTx).
-func DumpBucket(b *bolt.Bucket, where string) (*model.Bucket, *Violation) { return dumpBucket(b, where) }
+func DumpBucket(b *bolt.Bucket, where string) (*model.Bucket, *Violation) {
+	return dumpBucket(b, where)
+}
 
 func dumpBucket(b *bolt.Bucket, where string) (*model.Bucket, *Violation) {
 	out := model.New()
